@@ -1,4 +1,12 @@
-// integer-vector indexing of rank-1 and rank-2 views (see drv_views_idx.h)
+// integer-vector indexing of rank-1 views, and the entry point for rank 2 (see drv_views_idx.h); the rank-2 patterns are
+// compiled in four translation units by their first letter (drv_views_idx2*.cpp)
 #include "drv_views_idx.h"
 std::string ix_op(Array<1,int>& a, const std::vector<std::string>& w) { return ix_go<1>(a, ix_parse<1>(w)); }
-std::string ix_op(Array<2,int>& a, const std::vector<std::string>& w) { return ix_go<2>(a, ix_parse<2>(w)); }
+std::string ix_op(Array<2,int>& a, const std::vector<std::string>& w) {
+  std::vector<ISel> t = ix_parse<2>(w);
+  int l = t[0].letter;
+  if (l <= L_R) return ix_op2_a(a, t);
+  if (l <= L_V) return ix_op2_b(a, t);
+  if (l <= L_W) return ix_op2_c(a, t);
+  return ix_op2_d(a, t);
+}
